@@ -175,25 +175,41 @@ def check(idx: Index, rep: Report, tier: str) -> str:
         raise AnalysisError(f"{f.fq}: expected exactly one create(...) call")
     kw = {k.arg: k.value for k in creates[0].keywords}
     at = cfg.node_of(creates[0])
-    ok_operand_forms = {"tuple((value_mapper.get(operand, operand) for operand in self._operands))", "tuple((value_mapper.get(operand, operand) for operand in self.operands))", "()"}
-    ops_defs = _def_texts(cfg, kw.get("operands"), at)
-    if ops_defs and ops_defs <= ok_operand_forms and len(ops_defs - {"()"}) == 1:
-        r2.ok(f.fq + ":operands", f"{f.loc} operands = {sorted(ops_defs)}")
+    from ..setbuild import describe as describe_set, element_shape
+
+    def mapped(expr, sources: set[str], mapper: str, allowed_facts: set, what: str):
+        """None when `expr` is the sequence `mapper`-mapped (identity fallback) over one of `sources`; else why not."""
+        if expr is None:
+            return f"no {what} are given to create(...)"
+        d = describe_set(f.node, cfg, expr, at)
+        if d.unknown:
+            raise AnalysisError(f"{f.fq}: how the {what} of the copy are built was not understood: {d.unknown[:2]}")
+        if d.bases - {"()"}:
+            return f"the {what} of the copy include `{sorted(d.bases)}` unmapped"
+        shapes = {f"{mapper}.get(_x, _x)", f"{mapper}[_x] if _x in {mapper} else _x"}
+        for ad in d.adds:
+            if len(ad.iters) != 1 or ad.iters[0][1] not in sources:
+                return f"`{ad.elem}` is not taken per element of {sorted(sources)}"
+            if element_shape(ad) not in shapes:
+                return f"each of the {what} is `{ad.elem}`; it must be {mapper}.get(x, x) (mapped when known, identity otherwise)"
+            if not set(ad.facts) <= allowed_facts:
+                return f"the {what} are only given under {sorted(set(ad.facts) - allowed_facts)}"
+        return None if d.adds else f"the {what} of the copy are empty"
+
+    why = mapped(kw.get("operands"), {"self._operands", "self.operands"}, "value_mapper", {("clone_operands", True)}, "operands")
+    if why is None:
+        r2.ok(f.fq + ":operands", f"{f.loc} operands mapped through value_mapper with identity fallback (deferred unless clone_operands)")
     else:
-        r2.fail(f.fq + ":operands", Finding("C02.R2", f.fq, "operands-not-mapped", f"operands of the copy are `{sorted(ops_defs)}`; they must be value_mapper.get(operand, operand) over the source operands (or empty when deferred)", f.loc))
-    succ_defs = _def_texts(cfg, kw.get("successors"), at)
-    ok_succ = {
-        "[block_mapper[successor] if successor in block_mapper else successor for successor in self._successors]",
-        "[block_mapper.get(successor, successor) for successor in self._successors]",
-        "[block_mapper[successor] if successor in block_mapper else successor for successor in self.successors]",
-        "[block_mapper.get(successor, successor) for successor in self.successors]",
-    }
-    if succ_defs and succ_defs <= ok_succ:
+        r2.fail(f.fq + ":operands", Finding("C02.R2", f.fq, "operands-not-mapped", f"{why}; they must be value_mapper.get(operand, operand) over the source operands (or empty when deferred)", f.loc))
+    why = mapped(kw.get("successors"), {"self._successors", "self.successors"}, "block_mapper", set(), "successors")
+    if why is None:
         r2.ok(f.fq + ":successors", f"{f.loc} successors through block_mapper with identity fallback")
     else:
-        r2.fail(f.fq + ":successors", Finding("C02.R2", f.fq, "successors-not-mapped", f"successors of the copy are `{sorted(succ_defs)}`; they must go through block_mapper with identity fallback", f.loc))
+        r2.fail(f.fq + ":successors", Finding("C02.R2", f.fq, "successors-not-mapped", f"{why}; they must go through block_mapper with identity fallback", f.loc))
     # result types / regions
-    if _def_texts(cfg, kw.get("result_types"), at) <= {"self.result_types", "[r.type for r in self.results]", "tuple((r.type for r in self.results))"} and _def_texts(cfg, kw.get("regions"), at) == {"[Region() for _ in self.regions]"}:
+    dreg = describe_set(f.node, cfg, kw["regions"], at) if "regions" in kw else None
+    regs_ok = dreg is not None and not dreg.unknown and not dreg.bases and len(dreg.adds) == 1 and dreg.adds[0].elem == "Region()" and [it for _, it in dreg.adds[0].iters] in (["self.regions"], ["range(len(self.regions))"]) and not dreg.adds[0].facts
+    if _def_texts(cfg, kw.get("result_types"), at) <= {"self.result_types", "[r.type for r in self.results]", "tuple((r.type for r in self.results))"} and regs_ok:
         r2.ok(f.fq + ":results-regions")
     else:
         r2.fail(f.fq + ":results-regions", Finding("C02.R2", f.fq, "results-regions", "result types / fresh empty regions of the copy do not mirror the source", f.loc))
@@ -217,7 +233,9 @@ def check(idx: Index, rep: Report, tier: str) -> str:
         old = names[0] if names[1] == new else names[1]
         if unparse(src_arg) != "self.walk()":
             bad.append(("remap-source", f"the source side of the remap loop is `{unparse(src_arg)}`, not self.walk()"))
-        if unparse(st.value) not in (f"tuple((value_mapper.get(operand, operand) for operand in {old}.operands))",):
+        dval = describe_set(f.node, cfg, st.value, cfg.node_of(st))
+        val_ok = not dval.unknown and not dval.bases and len(dval.adds) == 1 and dval.adds[0].iters and dval.adds[0].iters[0][1] in (f"{old}.operands", f"{old}._operands") and element_shape(dval.adds[0]) in ("value_mapper.get(_x, _x)", "value_mapper[_x] if _x in value_mapper else _x") and not dval.adds[0].facts
+        if not val_ok:
             bad.append(("remap-value", f"remapped operands are `{unparse(st.value)}`; must be value_mapper.get(operand, operand) over {old}.operands"))
         if not fr.fresh(new_arg, cfg.node_of(w)):
             bad.append(("remap-target", f"the copy side of the remap loop is `{unparse(new_arg)}`, which is not the walk of the freshly created copy: the pairing with self.walk() is wrong whenever it contains anything else"))
